@@ -67,10 +67,25 @@ type TypeSpec interface {
 // For most types, this is the type itself. For Typedefs, it is the root
 // TypeSpec of the Typedef's target.
 func RootTypeSpec(s TypeSpec) TypeSpec {
-	if t, ok := s.(*TypedefSpec); ok {
-		return t.root
+	// A typedef that is reached while it is still being linked (typedef chains
+	// that pass through a struct referring back to them) has not recorded its
+	// root yet, and whoever asked would cache a nil root for good. Follow the
+	// target chain instead; the hop limit only matters for typedef cycles,
+	// which are rejected afterwards.
+	for hops := 0; hops < 1000; hops++ {
+		t, ok := s.(*TypedefSpec)
+		if !ok {
+			return s
+		}
+		if t.root != nil {
+			return t.root
+		}
+		if _, unresolved := t.Target.(typeSpecReference); unresolved || t.Target == nil {
+			return nil
+		}
+		s = t.Target
 	}
-	return s
+	return nil
 }
 
 // nativeThriftType is the common parent for all TypeSpecs that are native
